@@ -4,13 +4,13 @@ import math
 from harness import dtwgen
 
 COQ_FILES = ["theories/BandTie.v", "gen/Gen_cmem.v", "theories/Mem.v", "theories/CBand.v", "gen/Gen_cwps.v", "theories/CWps.v", "gen/Gen_cfill.v", "theories/CFill.v",
-             "gen/Gen_cexpand.v", "theories/CExpand.v", "props/C08.v"]
+             "gen/Gen_cexpand.v", "theories/CExpand.v", "gen/Gen_cloc.v", "theories/CLoc.v", "props/C08.v"]
 THEOREMS = [("DVProps.C08", "C08_psi_prologue_in_allocation"), ("DVProps.C08", "C08_psi_scan_in_row"),
             ("DVProps.C08", "C08_band_write_in_buffer"), ("DVProps.C08", "C08_c_row_loop_accesses_in_buffer"),
             ("DVProps.C08", "C08_compact_slot_in_row"), ("DVProps.C08", "C08_compact_shift_steps"),
             ("DVProps.C08", "C08_fill_loops_follow_the_layout"), ("DVProps.C08", "C08_fill_skip_loops_bounded"),
             ("DVProps.C08", "C08_fill_skip_in_row"), ("DVProps.C08", "C08_expand_loops_follow_the_layout"),
-            ("DVProps.C08", "C08_expand_write_index_in_block")]
+            ("DVProps.C08", "C08_expand_write_index_in_block"), ("DVProps.C08", "C08_wps_loc_returns_the_layout_slot")]
 TRUSTED_BASE = [
     "Coq 8.16.1 kernel",
     "tools/translate_c.py: buffer length, allocation size, psi prologue bound and psi scan bounds of the four "
